@@ -12,7 +12,7 @@
    seam, fixed point with the ray-tracing matrix); TLC compares them (and computes the exact ones itself).
 Python only orchestrates, counts and maps TLC's verdicts."""
 import concurrent.futures as cf
-import json, os
+import json, os, time
 from . import lib
 
 ACTIONS = ["ANewFrame", "ABatch", "ASkipRecord", "ASkipEof", "ASavePosition", "AFrameStart", "ASetPosition", "ARewind",
@@ -37,13 +37,15 @@ def _record(ctx, exe, exe_omp):
     q = ctx.quick
     env = {"VERIF_SEED": str(ctx.seed)}
     w = ctx.work
-    jobs = [("hist", exe, ["hist", os.path.join(w, "hist.ndjson"), 56 if q else 400, 40 if q else 60, 0 if q else 1], {}),
-            ("allbatch", exe, ["allbatch", os.path.join(w, "allbatch.ndjson"), 3 if q else 16, 24 if q else 40], {}),
-            ("long", exe, ["long", os.path.join(w, "long.ndjson"), 2 if q else 8, 2500 if q else 10000], {}),
-            ("gradx", exe, ["gradx", os.path.join(w, "gradx.ndjson"), 24 if q else 200, 0 if q else 1], {}),
-            ("gradx-omp", exe_omp, ["gradx", os.path.join(w, "gradx-omp.ndjson"), 12 if q else 100, 0 if q else 1], {"OMP_NUM_THREADS": "3"}),
-            ("grad", exe, ["grad", os.path.join(w, "grad.ndjson"), 6 if q else 40, 0 if q else 1], {}),
-            ("grad-omp", exe_omp, ["grad", os.path.join(w, "grad-omp.ndjson"), 16 if q else 150, 0 if q else 1], {"OMP_NUM_THREADS": "3"})]
+    # OpenMP runs: few threads, no spinning (the machine is shared)
+    omp = {"OMP_NUM_THREADS": "3", "OMP_WAIT_POLICY": "passive", "GOMP_SPINCOUNT": "0"}
+    jobs = [("hist", exe, ["hist", os.path.join(w, "hist.ndjson"), 32 if q else 400, 36 if q else 60, 0 if q else 1], {}),
+            ("allbatch", exe, ["allbatch", os.path.join(w, "allbatch.ndjson"), 2 if q else 16, 20 if q else 40], {}),
+            ("long", exe, ["long", os.path.join(w, "long.ndjson"), 1 if q else 8, 2000 if q else 10000], {}),
+            ("gradx", exe, ["gradx", os.path.join(w, "gradx.ndjson"), 16 if q else 200, 0 if q else 1], {}),
+            ("gradx-omp", exe_omp, ["gradx", os.path.join(w, "gradx-omp.ndjson"), 16 if q else 150, 0 if q else 1], omp),
+            ("grad", exe, ["grad", os.path.join(w, "grad.ndjson"), 4 if q else 40, 0 if q else 1], {}),
+            ("grad-omp", exe_omp, ["grad", os.path.join(w, "grad-omp.ndjson"), 12 if q else 150, 0 if q else 1], omp)]
     out = []
     for name, x, args, e in jobs:
         ee = dict(env)
@@ -66,6 +68,9 @@ def _execution(recs, ln):
 
 def run(ctx):
     q = ctx.quick
+    t0 = time.time()
+    # many JVMs run side by side on a shared machine: keep each one's GC / JIT thread pools small
+    os.environ.setdefault("JAVA_TOOL_OPTIONS", "-XX:ParallelGCThreads=2 -XX:CICompilerCount=2")
     pool = cf.ThreadPoolExecutor(2)
     mc_future = None if ctx.replay else pool.submit(_model_checks, ctx)
     # ---- record
@@ -74,20 +79,26 @@ def run(ctx):
     else:
         exe = lib.build_driver("c14_lmtoproj")
         exe_omp = lib.build_driver("c14_lmtoproj", omp=True)
+        lib.log("C14: drivers built %.0fs" % (time.time() - t0))
         traces = _record(ctx, exe, exe_omp)
-    # ---- validate
+        lib.log("C14: traces recorded %.0fs" % (time.time() - t0))
+    # ---- validate: the executions are independent; concatenate the traces per kind and cut them into chunks
     chunks = []
-    for name, t in traces:
-        for boundary in ("Config", "GConfig"):
-            if name != "replay" and (boundary == "GConfig") != name.startswith("grad"):
-                continue
-            if name == "replay" and boundary == "GConfig" and '"e":"GConfig"' not in open(t).readline():
-                continue
-            if name == "replay" and boundary == "Config" and '"e":"GConfig"' in open(t).readline():
-                continue
-            for c in lib.split_trace(t, os.path.join(ctx.work, "chunks"), maxlines=6000 if q else 15000, boundary=boundary):
-                chunks.append((name, c[0]))
+    if ctx.replay:
+        first = open(ctx.replay).readline()
+        chunks = [("replay", c[0]) for c in lib.split_trace(ctx.replay, os.path.join(ctx.work, "chunks"), maxlines=10 ** 9,
+                                                             boundary="GConfig" if '"e":"GConfig"' in first else "Config")]
+    else:
+        for kind, boundary, per in (("hist", "Config", 6000 if q else 15000), ("grad", "GConfig", 1500 if q else 4000)):
+            cat = os.path.join(ctx.work, kind + "-all.ndjson")
+            with open(cat, "w") as f:
+                for name, t in traces:
+                    if name.startswith("grad") == (kind == "grad"):
+                        f.write(open(t).read())
+            for c in lib.split_trace(cat, os.path.join(ctx.work, "chunks"), maxlines=per, boundary=boundary):
+                chunks.append((kind, c[0]))
     res = lib.validate_parallel("Trace_LmToProj", [c[1] for c in chunks], jobs=4 if q else 8, timeout=1500, heap="3g")
+    lib.log("C14: %d chunks validated %.0fs" % (len(chunks), time.time() - t0))
     known_ids = {k["id"]: k for k in ctx.known}
     seen_events = set()
     nexec = {}
@@ -146,6 +157,7 @@ def run(ctx):
     # ---- model checks
     if mc_future is not None:
         mcs, ru = mc_future.result()
+        lib.log("C14: model checks done %.0fs" % (time.time() - t0))
         cov = {}
         for c, r in mcs:
             ctx.mc_must_pass(r, "machine = abstract histogram, all batch sizes (%s)" % c, "MC_LmToProj")
